@@ -2,8 +2,8 @@
 // bounds: every subnormal bit pattern (exponent field 0, any non-zero mantissa, both signs)
 // functions: rusty_variant::bytes_to_f64
 // failed check: assertion failed: got == want
-//   assertion failed: got == want at rusty_variant/src/bits.rs:528:17 in function bits::vk_c19::vk_c19_cvd_subnormal
-// native replay: dev=True release=True dev/kani_concrete_playback_vk_c19_cvd_subnormal_16900691803709742766: panicked at rusty_variant/src/bits.rs:528:17: assertion failed: got == want; release/kani_concrete_playback_vk_c19_cvd_subnormal_16900691803709742766: panicked at rusty_variant/src/bits.rs:528:17: assertion failed: got == want
+//   assertion failed: got == want at rusty_variant/src/bits.rs:852:17 in function bits::vk_c19::vk_c19_cvd_subnormal
+// native replay: dev=True release=True dev/kani_concrete_playback_vk_c19_cvd_subnormal_16900691803709742766: panicked at rusty_variant/src/bits.rs:852:17: assertion failed: got == want; release/kani_concrete_playback_vk_c19_cvd_subnormal_16900691803709742766: panicked at rusty_variant/src/bits.rs:852:17: assertion failed: got == want
 // BASIC program reaching the failing call:
 //   X# = 1: H# = .5: FOR I% = 1 TO 1030: X# = X# * H#: NEXT   ' X# = 2^-1030, a subnormal
 //   Y# = CVD(MKD$(X#))   ' 0 instead of X# (MKD$ encodes every subnormal as zero; CVD decodes a subnormal pattern as 1.m * 2^-1023)
